@@ -108,12 +108,26 @@ def shard_main(pid, specfile, outfile):
         build.assert_build_loaded()
     mod = prop_module(pid)
     rec = Recorder(spec)
+    pycov = None
+    if os.environ.get('VMON_PYCOV'):
+        # tools/cov_report.py: which lines of the pure-Python implementation
+        # the workload reached (reporting only, never a verdict)
+        import coverage
+        import BTrees
+        pycov = coverage.Coverage(
+            data_file=os.path.join(os.environ['VMON_PYCOV'], 'pycov'),
+            data_suffix=True, branch=True,
+            include=[os.path.join(os.path.dirname(BTrees.__file__), '*.py')])
+        pycov.start()
     try:
         mod.run_shard(spec, rec)
         res = rec.result()
     except BaseException:
         res = rec.result()
         res['harness_error'] = traceback.format_exc()
+    if pycov is not None:
+        pycov.stop()
+        pycov.save()
     with open(outfile + '.tmp', 'w') as fh:
         json.dump(jsonable(res), fh)
     os.replace(outfile + '.tmp', outfile)
